@@ -728,11 +728,11 @@ proof {
 merge_all = Fn(F_MIN, 'Minimizer', 'merge_transitions', props=P, attrs='#[verifier::loop_isolation(false)] #[verifier::allow_complex_invariants]',
     spec="""
 requires
-    exists|n: int| part_ok(pv(partition@), n) && merged_inv(tv_edges(old(transitions)@), pv(partition@), old(transitions)@, Map::<StateID, StateID>::empty(), n),
+    exists|n: int| 0 <= n && part_ok(pv(partition@), n) && merged_inv(tv_edges(old(transitions)@), pv(partition@), old(transitions)@, Map::<StateID, StateID>::empty(), n),
     all_nonempty(pv(partition@)),
 ensures
     // one entry per group survives (that of its least member), holding the edges of all members
-    exists|n: int, ab: AbV| part_ok(pv(partition@), n) && #[trigger] merged_inv(tv_edges(old(transitions)@), pv(partition@), final(transitions)@, ab, n) && all_done(pv(partition@), ab),
+    exists|n: int, ab: AbV| 0 <= n && part_ok(pv(partition@), n) && #[trigger] merged_inv(tv_edges(old(transitions)@), pv(partition@), final(transitions)@, ab, n) && all_done(pv(partition@), ab),
 """,
     edits=TRACE + [
         Ins('body_start', None, """
@@ -740,7 +740,7 @@ broadcast use axiom_stateid_cmp;
 let ghost p = pv(partition@);
 let ghost tv_in = transitions@;
 let ghost e0 = tv_edges(tv_in);
-let ghost n = choose|n: int| part_ok(p, n) && merged_inv(e0, p, tv_in, Map::<StateID, StateID>::empty(), n);
+let ghost n = choose|n: int| 0 <= n && part_ok(p, n) && merged_inv(e0, p, tv_in, Map::<StateID, StateID>::empty(), n);
 let ghost mut ab: AbV = Map::empty();
 proof {
     assert(groups_disjoint(p)) by {
@@ -991,15 +991,174 @@ while __q < target_states.len()
 """, why='iter_mut loop written as an index loop (E13)'),
     ])
 
-update_stub = Fn(F_MIN, 'Minimizer', 'update_transitions', props=P, external_body=True, trusted_reason='TEMPORARY: under construction',
+update = Fn(F_MIN, 'Minimizer', 'update_transitions', props=P, attrs='#[verifier::loop_isolation(false)] #[verifier::allow_complex_invariants]',
     spec="""
 requires
     old(dfa).states@.len() == partition@.len(), forall|g: int| 0 <= g < partition@.len() ==> (#[trigger] old(dfa).states@[g]).transitions@.len() == 0,
-    partition@.len() <= u32::MAX, exists|n: int| tm_keys(transitions@, n) && part_ok(pv(partition@), n), all_nonempty(pv(partition@)),
+    partition@.len() <= u32::MAX, exists|n: int| 0 <= n && tm_keys(transitions@, n) && part_ok(pv(partition@), n), all_nonempty(pv(partition@)),
 ensures
+    // state g of the new automaton has an edge (cc, h) exactly when some member of group g has an edge on cc into group h
     final(dfa).states@.len() == partition@.len(), q_trans_ok(transitions@, pv(partition@), *final(dfa)),
     final(dfa).end_states == old(dfa).end_states, final(dfa).terminal_ids == old(dfa).terminal_ids, final(dfa).lookaheads == old(dfa).lookaheads, final(dfa).patterns == old(dfa).patterns,
-""")
+""",
+    edits=TRACE + [
+        Ins('body_start', None, """
+broadcast use axiom_stateid_cmp, axiom_ccid_cmp;
+let ghost p = pv(partition@);
+let ghost np = partition@.len() as int;
+let ghost tm = transitions@;
+let ghost d0 = *dfa;
+let ghost n = choose|n: int| 0 <= n && tm_keys(tm, n) && part_ok(p, n);
+proof {
+    assert(groups_disjoint(p)) by {
+        reveal(groups_disjoint);
+        assert forall|g: int, h: int, x: StateID| 0 <= g < p.len() && 0 <= h < p.len() && #[trigger] p[g].contains(x) && #[trigger] p[h].contains(x) implies g == h by {
+            assert(StateID(x.0 as int as u32) == x);
+            assert(in_grp(p, g, x.0 as int) && in_grp(p, h, x.0 as int));
+        }
+    }
+}
+"""),
+        Replace('E11+U5', 'transitions.iter().map(|(s, t)| (*s, t.clone())).collect::<Vec<_>>()', """{
+    let mut __v: Vec<TvEntry> = Vec::new();
+    let mut __itm = transitions.iter();
+    let ghost mrem = __itm.remaining();
+    proof { assert(btree_rem_ok(tm, mrem)); axiom_map_iter_ascending(mrem); }
+    loop
+        //@label update.copy
+        invariant
+            __itm.obeys_prophetic_iter_laws(), __itm.decrease() is Some, __itm.remaining().len() <= mrem.len(),
+            forall|q: int| 0 <= q < __itm.remaining().len() ==> #[trigger] __itm.remaining()[q] == mrem[mrem.len() - __itm.remaining().len() + q],
+            __v@.len() == mrem.len() - __itm.remaining().len(),
+            forall|i: int| 0 <= i < __v@.len() ==> (#[trigger] __v@[i]).0 == *mrem[i].0 && ccmap_same(__v@[i].1@, mrem[i].1@),
+        ensures __itm.remaining().len() == 0,
+        decreases __itm.decrease()->0
+    {
+        let Some((s, t)) = __itm.next() else { break };
+        __v.push((*s, verif_clone_ccmap(t)));
+    }
+    proof {
+        assert(tv_of_map(tm, __v@)) by {
+            assert forall|i: int| 0 <= i < __v@.len() implies tm.contains_key((#[trigger] __v@[i]).0) && ccmap_same(__v@[i].1@, tm[__v@[i].0]@) by { assert(tm[*mrem[i].0] == *mrem[i].1); }
+            assert forall|s: StateID| #[trigger] tm.contains_key(s) implies tv_has(__v@, s) by {
+                let i = choose|i: int| 0 <= i < mrem.len() && *(#[trigger] mrem[i]).0 == s;
+                assert(tv_pos(__v@, s, i));
+            }
+            assert forall|i: int, j: int| 0 <= i < j < __v@.len() implies (#[trigger] __v@[i]).0.0 < (#[trigger] __v@[j]).0.0 by { assert(mrem[i].0.0 < mrem[j].0.0); }
+        }
+    }
+    __v
+}""", why='`it.map(|(s, t)| E).collect::<Vec<_>>()` as the loop that pushes E for every item (std definition of map/collect, E11); `t.clone()` of the per-class map through the trusted wrapper (U5)'),
+        Ins('after_stmt', 'let mut transitions = $_;', """
+let ghost tv_in = transitions@;
+let ghost e0 = tv_edges(tv_in);
+proof {
+    assert(tv_of_map(tm, tv_in));
+    assert forall|s: StateID| s.0 < n implies #[trigger] tv_has(tv_in, s) by { assert(tm.contains_key(s)); }
+    assert forall|i: int| 0 <= i < tv_in.len() implies (#[trigger] tv_in[i]).0.0 < n by { assert(tm.contains_key(tv_in[i].0)); }
+    lemma_merged_init(p, tv_in, n);
+    assert forall|s: StateID, cc: CharClassID, t: StateID| #[trigger] e0(s, cc, t) <==> tm_edge(tm, s, cc, t) by {
+        if e0(s, cc, t) { let i = choose|i: int| #[trigger] tv_pos(tv_in, s, i) && tv_edge(tv_in, i, cc, t); assert(ccmap_same(tv_in[i].1@, tm[tv_in[i].0]@)); }
+        if tm_edge(tm, s, cc, t) {
+            assert(tv_has(tv_in, s));
+            let i = choose|i: int| #[trigger] tv_pos(tv_in, s, i);
+            assert(ccmap_same(tv_in[i].1@, tm[tv_in[i].0]@));
+            assert(tv_pos(tv_in, s, i) && tv_edge(tv_in, i, cc, t));
+        }
+    }
+}
+"""),
+        Ins('after_stmt', 'Self::merge_transitions(partition, &mut transitions);', """
+let ghost tv1 = transitions@;
+let ghost (n1, ab) = choose|n1: int, ab: AbV| 0 <= n1 && part_ok(p, n1) && #[trigger] merged_inv(e0, p, tv1, ab, n1) && all_done(p, ab);
+proof {
+    lemma_part_n_unique(p, n, n1);
+    assert(tv_bounded(tv1, n)) by {
+        assert forall|i: int, cc: CharClassID, t: StateID| #[trigger] tv_edge(tv1, i, cc, t) implies t.0 < n by {
+            assert(own_or_absorbed(e0, ab, tv1[i].0, cc, t));
+            if e0(tv1[i].0, cc, t) { assert(tm_edge(tm, tv1[i].0, cc, t)); }
+            else { let x = choose|x: StateID| #[trigger] ab.contains_key(x) && ab[x] == tv1[i].0 && e0(x, cc, t); assert(tm_edge(tm, x, cc, t)); }
+        }
+    }
+}
+"""),
+        Ins('after_stmt', 'Self::renumber_states_in_transitions(partition, &mut transitions);', """
+let ghost tv2 = transitions@;
+let ghost rem_none: CcRem = Seq::empty();
+proof { lemma_upd_init(dfa.states@, np, tv2, rem_none); }
+"""),
+        ForLoop('for (state_id, transitions_of_state) in transitions {', it='__it0', label='update.entries', spec="""
+invariant
+    __it0.obeys_prophetic_iter_laws(), __it0.decrease() is Some, __it0.remaining().len() <= tv2.len(),
+    forall|q: int| 0 <= q < __it0.remaining().len() ==> #[trigger] __it0.remaining()[q] == tv2[tv2.len() - __it0.remaining().len() + q],
+    upd_ok(dfa.states@, np, tv2, tv2.len() - __it0.remaining().len(), rem_none, 0, 0),
+    dfa.end_states == d0.end_states, dfa.terminal_ids == d0.terminal_ids, dfa.lookaheads == d0.lookaheads, dfa.patterns == d0.patterns,
+ensures __it0.remaining().len() == 0,
+decreases __it0.decrease()->0
+"""),
+        Ins('after', 'for (state_id, transitions_of_state) in transitions {', """
+let ghost k = tv2.len() - __it0.remaining().len() - 1;
+let ghost sid0 = state_id;
+proof {
+    assert((state_id, transitions_of_state) == tv2[k]);
+    assert(entry_renum(p, tv1[k], tv2[k]));
+    assert(dfa.states@.len() == np) by { reveal(upd_ok); }
+}
+"""),
+        ForLoop('for (char_class, target_states) in transitions_of_state.iter() {', it='__it1', into_iter=False, label='update.classes',
+                pre="""let ghost rem = __it1.remaining();
+proof {
+    assert(btree_rem_ok(tv2[k].1@, rem));
+    assert(upd_ok(dfa.states@, np, tv2, k, rem, 0, 0)) by { reveal(upd_ok); }
+}""",
+                body_pre="""
+proof {
+    if __it1.remaining().len() == 0 { lemma_upd_next_entry(dfa.states@, np, tv2, k, rem, rem_none); }
+    assert(true);
+}
+""", spec="""
+invariant
+    __it1.obeys_prophetic_iter_laws(), __it1.decrease() is Some, __it1.remaining().len() <= rem.len(), btree_rem_ok(tv2[k].1@, rem),
+    forall|q: int| 0 <= q < __it1.remaining().len() ==> #[trigger] __it1.remaining()[q] == rem[rem.len() - __it1.remaining().len() + q],
+    upd_ok(dfa.states@, np, tv2, k, rem, rem.len() - __it1.remaining().len(), 0),
+    dfa.end_states == d0.end_states, dfa.terminal_ids == d0.terminal_ids, dfa.lookaheads == d0.lookaheads, dfa.patterns == d0.patterns,
+ensures __it1.remaining().len() == 0, upd_ok(dfa.states@, np, tv2, k + 1, rem_none, 0, 0),
+decreases __it1.decrease()->0
+"""),
+        Ins('after', 'for (char_class, target_states) in transitions_of_state.iter() {', """
+let ghost j = rem.len() - __it1.remaining().len() - 1;
+proof { assert((char_class, target_states) == rem[j]); }
+"""),
+        ForLoop('for target_state in target_states {', it='__it2', via='%s.iter()', label='update.targets', spec="""
+invariant
+    __it2.obeys_prophetic_iter_laws(), __it2.decrease() is Some, __it2.remaining().len() <= target_states@.len(),
+    forall|q: int| 0 <= q < __it2.remaining().len() ==> *#[trigger] __it2.remaining()[q] == target_states@[target_states@.len() - __it2.remaining().len() + q],
+    upd_ok(dfa.states@, np, tv2, k, rem, j, target_states@.len() - __it2.remaining().len()),
+    dfa.end_states == d0.end_states, dfa.terminal_ids == d0.terminal_ids, dfa.lookaheads == d0.lookaheads, dfa.patterns == d0.patterns,
+ensures __it2.remaining().len() == 0,
+decreases __it2.decrease()->0
+"""),
+        Ins('after', 'for target_state in target_states {', """
+let ghost m = target_states@.len() - __it2.remaining().len() - 1;
+let ghost sts0 = dfa.states@;
+proof { assert(*target_state == target_states@[m]); assert(sts0.len() == np) by { reveal(upd_ok); } }
+"""),
+        Ins('block_end', 'for target_state in target_states {', """
+proof {
+    let e = (*char_class, StateSetID(target_state.0));
+    assert forall|y: (CharClassID, StateSetID)| #[trigger] dfa.states@[state_id as int].transitions@.contains(y) <==> (y == e || sts0[state_id as int].transitions@.contains(y)) by {
+        lemma_push_contains_pair(sts0[state_id as int].transitions@, e, y);
+    }
+    lemma_upd_push(sts0, dfa.states@, np, tv2, k, rem, j, m);
+}
+"""),
+        Ins('block_end', 'for (char_class, target_states) in transitions_of_state.iter() {', """
+proof { lemma_upd_next_class(dfa.states@, np, tv2, k, rem, j); }
+"""),
+        Ins('body_end', None, """
+proof { lemma_update_final(tm, e0, p, tv1, tv2, ab, n, *dfa, rem_none); assert(dfa.states@.len() == np) by { reveal(upd_ok); } }
+"""),
+    ])
 
 create_from_partition = Fn(F_MIN, 'Minimizer', 'create_from_partition', ret='r', props=P, attrs='#[verifier::loop_isolation(false)] #[verifier::allow_complex_invariants]',
     spec="""
@@ -1310,7 +1469,7 @@ FUNCS = [
     merge_one,
     merge_all,
     renumber,
-    update_stub,
+    update,
     create_from_partition,
     minimize,
 ]
